@@ -1,13 +1,191 @@
-//! C05 seeds, field inventory and entry points for "wdt" (stub: not built yet).
-use crate::seed::{Aux, Seed};
-use crate::worker::Runner;
+//! C05 seeds, field inventory and entry points for WDT (map tile table).
+//!
+//! All seeds are produced by the crate's own `WdtWriter` from a `WdtFile`: terrain maps of
+//! several expansions (with the empty MWMO chunk before Cataclysm), WMO-only maps with MWMO +
+//! MODF, and a BfA map with the MAID FileDataID table (8 sections of 64x64 ids). Chunk tags are
+//! stored reversed on disk ("REVM"). `WdtReader::new` takes a version hint; the seed's own version
+//! is passed through `Aux::Names` and WotLK is always tried as well.
+use crate::seed::{add_chunk_seq, Aux, Seed};
+use crate::worker::{errname, Runner};
+use std::io::Cursor;
+use wow_wdt::chunks::maid::MaidSection;
+use wow_wdt::chunks::mphd::FileDataIds;
+use wow_wdt::chunks::{MaidChunk, ModfChunk, ModfEntry, MphdFlags, MwmoChunk};
+use wow_wdt::version::WowVersion;
+use wow_wdt::{WdtFile, WdtReader, WdtWriter};
 
-pub fn seed_names(_thorough: bool) -> Vec<String> {
-    Vec::new()
+pub fn seed_names(thorough: bool) -> Vec<String> {
+    let mut v = vec!["wotlk-wmo-only".to_string(), "bfa-maid".to_string()];
+    if thorough {
+        v.push("classic-terrain".into());
+        v.push("wotlk-terrain".into());
+        v.push("cata-terrain".into());
+        v.push("mop-wmo-only".into());
+    }
+    v
+}
+
+fn version_of(name: &str) -> WowVersion {
+    match name {
+        "classic-terrain" => WowVersion::Classic,
+        "wotlk-terrain" | "wotlk-wmo-only" => WowVersion::WotLK,
+        "cata-terrain" => WowVersion::Cataclysm,
+        "mop-wmo-only" => WowVersion::MoP,
+        "bfa-maid" => WowVersion::BfA,
+        _ => wverif_common::tool_error(&format!("wdt: unknown seed {name}")),
+    }
+}
+
+fn vname(v: WowVersion) -> &'static str {
+    match v {
+        WowVersion::Classic => "Classic",
+        WowVersion::TBC => "TBC",
+        WowVersion::WotLK => "WotLK",
+        WowVersion::Cataclysm => "Cataclysm",
+        WowVersion::MoP => "MoP",
+        WowVersion::WoD => "WoD",
+        WowVersion::Legion => "Legion",
+        WowVersion::BfA => "BfA",
+        WowVersion::Shadowlands => "Shadowlands",
+        WowVersion::Dragonflight => "Dragonflight",
+    }
+}
+
+fn vparse(s: &str) -> WowVersion {
+    WowVersion::from_expansion_name(s).unwrap_or(WowVersion::WotLK)
+}
+
+const TILES: [(usize, usize); 6] = [(0, 0), (1, 0), (31, 32), (32, 32), (10, 20), (63, 63)];
+
+fn modf_entry(ver: WowVersion) -> ModfEntry {
+    let mut e = ModfEntry::new();
+    e.id = 0;
+    e.unique_id = ver.expected_modf_unique_id();
+    e.position = [17066.0, 100.0, 17066.0];
+    e.rotation = [0.0, 90.0, 0.0];
+    e.lower_bounds = [-500.0, -50.0, -500.0];
+    e.upper_bounds = [500.0, 300.0, 500.0];
+    e.flags = 0;
+    e.doodad_set = 1;
+    e.name_set = 0;
+    e.scale = ver.expected_modf_scale();
+    e
 }
 
 pub fn build(name: &str) -> Seed {
-    wverif_common::tool_error(&format!("wdt: unknown seed {name}"))
+    let ver = version_of(name);
+    let mut w = WdtFile::new(ver);
+    let wmo_only = name.ends_with("wmo-only");
+    if wmo_only {
+        w.mphd.flags |= MphdFlags::WDT_USES_GLOBAL_MAP_OBJ;
+        let mut m = MwmoChunk::new();
+        m.add_filename("World\\wmo\\Dungeon\\KL_Instance\\KL_Instance.wmo".to_string());
+        w.mwmo = Some(m);
+        let mut f = ModfChunk::new();
+        f.add_entry(modf_entry(ver));
+        w.modf = Some(f);
+        if ver >= WowVersion::Cataclysm {
+            w.mphd.flags |= MphdFlags::UNK_FIRELANDS;
+        }
+    } else {
+        for (k, &(x, y)) in TILES.iter().enumerate() {
+            let e = w.main.get_mut(x, y).expect("tile");
+            e.set_has_adt(true);
+            e.area_id = 100 + k as u32;
+            if k == 2 {
+                e.flags |= 0x2; // "loaded" runtime bit, seen in files
+            }
+        }
+        match ver {
+            WowVersion::Classic => {
+                w.mwmo = Some(MwmoChunk::new());
+            }
+            WowVersion::WotLK => {
+                w.mphd.flags |= MphdFlags::ADT_HAS_MCCV | MphdFlags::ADT_HAS_BIG_ALPHA | MphdFlags::ADT_HAS_DOODADREFS_SORTED_BY_SIZE_CAT;
+                w.mwmo = Some(MwmoChunk::new());
+            }
+            WowVersion::Cataclysm => {
+                w.mphd.flags |= MphdFlags::ADT_HAS_MCCV | MphdFlags::ADT_HAS_BIG_ALPHA | MphdFlags::UNK_FIRELANDS;
+            }
+            _ => {
+                w.mphd.flags |= MphdFlags::ADT_HAS_BIG_ALPHA | MphdFlags::UNK_FIRELANDS | MphdFlags::ADT_HAS_HEIGHT_TEXTURING;
+                w.mphd.set_file_data_ids(FileDataIds { lgt: 1_000_001, occ: 1_000_002, fogs: 1_000_003, mpv: 1_000_004, tex: 1_000_005, wdl: 1_000_006, pd4: 1_000_007 });
+                let mut maid = MaidChunk::new();
+                for (k, &(x, y)) in TILES.iter().enumerate() {
+                    for (si, sec) in MaidSection::all().iter().enumerate() {
+                        maid.set(*sec, x, y, 2_000_000 + (k * 16 + si) as u32).expect("maid.set");
+                    }
+                }
+                w.maid = Some(maid);
+            }
+        }
+    }
+    let mut out = Vec::new();
+    WdtWriter::new(&mut out).write(&w).expect("WdtWriter::write");
+    let len = out.len();
+    let mut s = Seed::new("wdt", name, out);
+    s.aux = Aux::Names(vec![vname(ver).to_string()]);
+    let chunks = add_chunk_seq(&mut s, "top", 0, len, vec![], true);
+    let find = |t: &str| chunks.iter().find(|c| c.2 == t).map(|c| (c.0, c.1));
+
+    if let Some((o, _)) = find("MVER") {
+        s.field(o + 8, 4, "index", "MVER.version");
+    }
+    if let Some((o, _)) = find("MPHD") {
+        s.field(o + 8, 4, "index", "MPHD.flags");
+        s.field(o + 12, 4, "index", "MPHD.something_or_lgt_id");
+        for i in 0..6 {
+            s.field(o + 16 + 4 * i, 4, "index", format!("MPHD.unused[{i}]"));
+        }
+    }
+    if let Some((o, tot)) = find("MAIN") {
+        let n = (tot - 8) / 8;
+        let mut pick = vec![0usize, 1, n - 1];
+        // the first populated tile that is not already listed
+        if let Some(k) = (0..n).find(|&i| s.u32_at(o + 8 + 8 * i) != 0 && !pick.contains(&i)) {
+            pick.push(k);
+        }
+        for i in pick {
+            s.field(o + 8 + 8 * i, 4, "index", format!("MAIN[{i}].flags"));
+            s.field(o + 8 + 8 * i + 4, 4, "index", format!("MAIN[{i}].area_id"));
+        }
+    }
+    if let Some((o, tot)) = find("MAID") {
+        let n = (tot - 8) / 4;
+        for i in [0usize, 1, 4096, n - 1] {
+            if i < n {
+                s.field(o + 8 + 4 * i, 4, "index", format!("MAID[{i}]"));
+            }
+        }
+    }
+    if let Some((o, tot)) = find("MWMO") {
+        if tot > 8 {
+            s.field_ex(o + tot - 1, 1, "term", "MWMO.last_nul", o + tot, 1, None);
+        }
+    }
+    if let Some((o, tot)) = find("MODF") {
+        if tot >= 8 + 64 {
+            let e = o + 8;
+            s.field(e, 4, "index", "MODF[0].name_id");
+            s.field(e + 4, 4, "index", "MODF[0].unique_id");
+            s.field(e + 56, 2, "index", "MODF[0].flags");
+            s.field(e + 58, 2, "index", "MODF[0].doodad_set");
+            s.field(e + 60, 2, "index", "MODF[0].name_set");
+            s.field(e + 62, 2, "index", "MODF[0].scale");
+        }
+    }
+    s
 }
 
-pub fn run(_r: &mut Runner, _bytes: &[u8], _aux: &Aux) {}
+pub fn run(r: &mut Runner, bytes: &[u8], aux: &Aux) {
+    let own = match aux {
+        Aux::Names(v) if !v.is_empty() => vparse(&v[0]),
+        _ => WowVersion::WotLK,
+    };
+    r.call("WdtReader::read", || WdtReader::new(Cursor::new(bytes), own).read().map(|_| ()).map_err(errname));
+    if own != WowVersion::WotLK {
+        r.call("WdtReader::read", || WdtReader::new(Cursor::new(bytes), WowVersion::WotLK).read().map(|_| ()).map_err(errname));
+    } else {
+        r.call("WdtReader::read", || WdtReader::new(Cursor::new(bytes), WowVersion::BfA).read().map(|_| ()).map_err(errname));
+    }
+}
